@@ -21,6 +21,7 @@ Inductive rkind :=
 | KRes        (* the loaded resource of a handle of the resource tree *)
 | KHandle     (* a handle of the resource tree *)
 | KMap        (* a sub-map of the resource tree *)
+| KFloat      (* not an object: a JSON float, id = its 64-bit pattern (never inspected) *)
 | KOther.     (* anything the harness could not identify *)
 
 Inductive val :=
@@ -35,7 +36,7 @@ Inductive val :=
 Definition rkind_eqb (a b : rkind) : bool :=
   match a, b with
   | KObj, KObj | KNoCopy, KNoCopy | KRes, KRes | KHandle, KHandle
-  | KMap, KMap | KOther, KOther => true
+  | KMap, KMap | KFloat, KFloat | KOther, KOther => true
   | _, _ => false
   end.
 
@@ -83,6 +84,7 @@ Fixpoint has_nocopy (v : val) : bool :=
 (* a value as it comes out of json.load: no Python object inside *)
 Fixpoint plain (v : val) : bool :=
   match v with
+  | JRef KFloat _ => true
   | JRef _ _ => false
   | JList l => forallb plain l
   | JObj kv => forallb (fun p => plain (snd p)) kv
